@@ -204,7 +204,7 @@ Record ack_grant_branch (s : db) (conn : N) (c : cmd) : Prop := {
   gb_ack : has (c_tflag c) TF_REQUIRE_ACKED = true;
   gb_sec : has (c_tflag c) TF_MILLISECOND = false;
   gb_hold : c_expried c <> 0;
-  gb_admit : exists waited,
+  gb_enter : exists waited,
       lock_newcomer (ensure_mgr s (c_key c)) c = Some waited
       /\ let s1 := fst (new_lock (ensure_mgr s (c_key c)) (c_key c) conn c) in
          (negb waited || (has (c_tflag c) TF_PRIORITY && check_wait_priority s1 (c_key c) c))
